@@ -228,6 +228,9 @@ func crashScenario(spec *crashSpec) *Scenario {
 			selfEstablished := m.As[side] != nil && m.As[side].getState() == established
 			if reached {
 				t0 := m.S.Now()
+				m.W.mu.Lock()
+				writes0 := m.W.ep[side].nWrites
+				m.W.mu.Unlock()
 				m.inject(spec.X)
 				if d := m.S.Now() - t0; d > 1100*time.Millisecond {
 					m.Failf("teardown.slow", "%s took %v to return", spec.X, d)
@@ -245,6 +248,16 @@ func crashScenario(spec *crashSpec) *Scenario {
 					}
 					return true
 				})
+				if !okSide && strings.HasPrefix(spec.X, "write") {
+					// a failing write side is only noticed when the endpoint writes: if it had
+					// nothing to send in the meantime there is nothing to judge yet
+					m.W.mu.Lock()
+					wrote := m.W.ep[side].nWrites > writes0
+					m.W.mu.Unlock()
+					if !wrote {
+						okSide = true
+					}
+				}
 				if !okSide {
 					var stuck []string
 					for _, t := range sideThreads[side] {
